@@ -80,7 +80,8 @@ theorem add_parameters_fresh (tb : Tables) (ops : List (Op K)) (h : Nat) (names 
       cases Nat.lt_or_ge h s.circs.length with
       | inl x => exact x
       | inr x => rw [List.getElem?_eq_none x] at hc; cases hc
-    simp [step, hc, hl, s, ids]
+    simp only [step, s, ids, hc]
+    simp [List.getElem?_set, hl, s]
   · have := freshIds_ge hp
     exact Nat.ne_of_gt (Nat.lt_of_lt_of_le hw.pos this)
   · have h1 := (hi c0 hc0 p hm).2
@@ -130,8 +131,15 @@ theorem combine_shared_counterexample :
 
 theorem param_identity_fails : ¬ ParamIdentity Int tb0 := by
   intro h
-  have := h f6History (.lin ⟨1, ⟨[1, 1], [2, 2], [(2, .par 1)]⟩, [.par .rx [0] [] 2, .par .rx [0] [] 2]⟩) (by decide)
-  exact absurd this (by decide)
+  have w := combine_shared_counterexample
+  cases hc : (runS tb0 {} f6History).circs[1]? with
+  | none => rw [hc] at w; cases w
+  | some c =>
+    rw [hc] at w
+    simp only [Option.map_some, Option.some.injEq, Prod.mk.injEq] at w
+    have := h f6History c (List.mem_of_getElem? hc)
+    rw [w.1] at this
+    exact absurd this (by decide)
 
 theorem get?_setAll_not_mem {V : Type} (d : Dict V) (kvs : List (PId × V)) (k : PId)
     (h : k ∉ kvs.map (·.1)) : (d.setAll kvs).get? k = d.get? k := by
@@ -305,8 +313,9 @@ example : ((runS tb0 ({} : Store Int)
        .addPar 0 .prot [0, 1] [2, 3] (.par 2), .newP 2, .addPar 1 .ry [1] [] (.fn []), .extend 0 (.h 1),
        .tr [.pauli, .rx, .wrap .mark] 0]).circs[2]?.map fun c => (c.view.m.inP, c.bind [1, 2, 3])) =
     some ([1, 2, 5], .ok
-      [{ kind := .H, targets := [0] }, { kind := .RZ, targets := [0], params := [.val 3] },
-       { kind := .H, targets := [0] }, { kind := .RX, targets := [0], params := [.halfPi 1] },
+      [{ kind := .H, targets := [0] }, { kind := .Z, targets := [0] },
+       { kind := .RZ, targets := [0], params := [.val 3] }, { kind := .H, targets := [0] },
+       { kind := .RX, targets := [0], params := [.halfPi 1] },
        { kind := .CNOT, controls := [1], targets := [0] }, { kind := .Z, targets := [0] },
        { kind := .RZ, targets := [0], params := [.val 2] }, { kind := .CNOT, controls := [1], targets := [0] },
        { kind := .RX, targets := [0], params := [.halfPi (-1)] }, { kind := .Z, targets := [0] },
